@@ -1,2 +1,4 @@
-import Tumfl.Props.C11
-#print axioms Tumfl.Props.C11_roundtrip
+import Tumfl.Props.C19
+#print axioms Tumfl.Props.C19_ok
+#print axioms Tumfl.Props.C19_chunk
+#print axioms Tumfl.Props.C09_no_index_error
